@@ -50,6 +50,18 @@ def run(ctx):
             ctx.violation("C12:mixed-with-another" if "text of the exchange" in r["why"] or "own target" in r["why"] else "C12:concurrent-faults", r)
         else:
             ctx.traces_ok += 1
+    # faults at the listener (FaultCases.tla, ListenerFaults): clients that come afterwards are served
+    out = ctx.run_vh(binp, ["c12-accept"], timeout=600)
+    out, crashed = ctx.nocrash(out, "C12:crash:accept-fault")
+    if not crashed and len(out) != 3:
+        raise vlib.Infra("c12-accept: %d results" % len(out))
+    for r in out:
+        ctx.evaluations += 1
+        ctx.nontrivial.add("accept:" + r["fault"])
+        if not r["ok"]:
+            ctx.violation("C12:stops-serving:accept-" + r["fault"], r)
+        else:
+            ctx.traces_ok += 1
     # input whose size the peer chooses (FaultCases.tla, Unbounded): the memory the proxy keeps for it is bounded
     out = ctx.run_vh(binp, ["c12-mem"], timeout=1200)
     out, crashed = ctx.nocrash(out, "C12:crash:unbounded-input")
